@@ -113,9 +113,14 @@ type RunInput struct {
 	Cfg     []Entry  `json:"cfg"`
 }
 
+type ProbeObs struct {
+	Local   *AddrObs `json:"local"`
+	Reached []string `json:"reached"`
+}
+
 type RunObs struct {
-	Added []*AddrObs `json:"added"`
-	Reach [][]string `json:"reach"`
+	Added  []*AddrObs `json:"added"`
+	Probes []ProbeObs `json:"probes"`
 }
 
 var svcNames = []string{"s1", "s2", "s3"}
@@ -208,36 +213,44 @@ func runOne(in RunInput, scratch string) (RunObs, string) {
 			return ob, "AddAddress called with a nil / unknown address"
 		}
 		ob.Added = append(ob.Added, ao)
-		// concrete local address for the probe
-		ip := net.IP(ao.IP)
+		// probe connections: the entry's own concrete address, the same port on a foreign
+		// address (matches only entries without an address), and a port nobody configured
+		own := net.IP(ao.IP)
 		if len(ao.IP) == 0 {
-			ip = net.ParseIP("192.0.2.1")
+			own = net.ParseIP("192.0.2.1")
 		}
-		reached := map[string]bool{}
-		for _, s := range svcNames {
-			before := len(l.Handled)
-			payload := []byte(svcPrefix[s] + "x")
-			var perr error
-			if ao.Proto == "tcp" {
-				perr = l.Probe(&net.TCPAddr{IP: ip, Port: ao.Port}, &net.TCPAddr{IP: net.ParseIP("198.51.100.7"), Port: 40000}, [][]byte{payload})
-			} else {
-				perr = l.ProbeUDP(&net.UDPAddr{IP: ip, Port: ao.Port}, &net.UDPAddr{IP: net.ParseIP("198.51.100.7"), Port: 40000}, payload, nil)
-			}
-			if perr != nil {
-				return ob, "probe: " + perr.Error()
-			}
-			_, handled := l.Snapshot()
-			for _, h := range handled[before:] {
-				reached[h.Service] = true
-			}
+		locals := []*AddrObs{
+			{Proto: ao.Proto, IP: hx.B(own.To16()), Port: ao.Port},
+			{Proto: ao.Proto, IP: hx.B(net.ParseIP("198.18.0.9").To16()), Port: ao.Port},
+			{Proto: ao.Proto, IP: hx.B(own.To16()), Port: 9},
 		}
-		var rs []string
-		for _, s := range svcNames {
-			if reached[s] {
-				rs = append(rs, s)
+		for _, lo := range locals {
+			reached := map[string]bool{}
+			for _, s := range svcNames {
+				before := len(l.Handled)
+				payload := []byte(svcPrefix[s] + "x")
+				var perr error
+				if lo.Proto == "tcp" {
+					perr = l.Probe(&net.TCPAddr{IP: net.IP(lo.IP), Port: lo.Port}, &net.TCPAddr{IP: net.ParseIP("198.51.100.7"), Port: 40000}, [][]byte{payload})
+				} else {
+					perr = l.ProbeUDP(&net.UDPAddr{IP: net.IP(lo.IP), Port: lo.Port}, &net.UDPAddr{IP: net.ParseIP("198.51.100.7"), Port: 40000}, payload, nil)
+				}
+				if perr != nil {
+					return ob, "probe: " + perr.Error()
+				}
+				_, handled := l.Snapshot()
+				for _, h := range handled[before:] {
+					reached[h.Service] = true
+				}
 			}
+			var rs []string
+			for _, s := range svcNames {
+				if reached[s] {
+					rs = append(rs, s)
+				}
+			}
+			ob.Probes = append(ob.Probes, ProbeObs{Local: lo, Reached: rs})
 		}
-		ob.Reach = append(ob.Reach, rs)
 	}
 	return ob, ""
 }
@@ -339,15 +352,15 @@ func main() {
 			as = append(as, coqAddr(a))
 		}
 		var rs []string
-		for _, x := range ob.Reach {
-			rs = append(rs, coqStrs(x))
+		for _, x := range ob.Probes {
+			rs = append(rs, fmt.Sprintf("(%s, %s)", coqAddr(x.Local), coqStrs(x.Reached)))
 		}
 		dist[fmt.Sprintf("run:listened=%d", len(ob.Added))]++
 		dist[fmt.Sprintf("run:entries=%d", len(in.Cfg))]++
 		in2 := in
 		cases = append(cases, hx.Case{ID: id, Kind: "run", Input: map[string]interface{}{"run": in2}, Obs: ob, Crash: crash,
 			Coq: fmt.Sprintf("CR (mkRCase %s %s %s RES %s %s)", hx.CoqN(uint64(id)), coqStrs(in.Defined), hx.CoqList(es, "entry"),
-				hx.CoqList(as, "addr"), hx.CoqList(rs, "(list str)"))})
+				hx.CoqList(as, "addr"), hx.CoqList(rs, "(addr * list str)"))})
 		id++
 	}
 	header := "From HT Require Import Common.Bytes C19.Model C19.Check.\nDefinition RES : rtable := " + res + "."
